@@ -50,6 +50,8 @@ def big_cases():
         if n in (7, 99, 101, 200, 250):
             out.append(["BIG", "Product", n, "f8"])
             out.append(["BIG", "NoDispDense", n, "c16"])
+    # beyond n = 316 a wrongly evaluated Auto() threshold would switch the DEFAULT algorithm to the stochastic estimator
+    out += [["BIG", "Generic", 320, "f8"], ["BIG", "Product", 320, "f8"], ["BIG", "Generic", 400, "c16"]]
     return out
 
 
@@ -90,7 +92,7 @@ def run_case(case, seed):
         sig, src = f"{kind},n={'<100' if n < 100 else ('=100' if n == 100 else ('not-multiple' if n % 100 else 'multiple'))}", f"{kind}<{n},{tok}>"
         ks = sorted({0, 1, -1, 2, -2, n - 1, -(n - 1), n // 2, -(n // 2), 99, -99, 100, -100, 101, -101} & set(range(-n + 1, n)))
         exact, lowp, dts = True, False, None
-        algs = ["Exact", "omitted"]
+        algs = ["Exact", "omitted", "Auto"]
     else:
         term, alg0 = case
         algs = [alg0]
@@ -201,7 +203,7 @@ def describe(tier, seed):
         "bound": "square terms over 24 leaves (incl. rectangular factors whose Kronecker / block-diagonal / product is square), every depth-1 "
                  "nesting (+, -, @, kron, kronsum, 3-factor Kronecker and KronSum, BlockDiag with 3 multiplicity patterns, T, H, scalars, "
                  "slices, no_dispatch)" + (", capped depth-2" if tier == "thorough" else "") + " x EVERY offset -n<k<n x {omitted, Exact(), Auto()}; "
-                 "probing algorithm on sizes 5,6,7,99,100,101,150,199,200,201,250 (4 kinds without a rule) at 15 offsets",
+                 "probing algorithm on sizes 5,6,7,99,100,101,150,199,200,201,250,320,400 (4 kinds without a rule) at 15 offsets with {Exact(), omitted, Auto()}",
         "alphabet": _DESC,
         "oracle": "numpy.diag(reference, k): values (bit-exact in the exact tier), length n-|k|, dtype; trace; structural rule vs generic "
                   "probing on no_dispatch(A)",
